@@ -15,6 +15,10 @@ def run(ctx):
     modelled = [c for c in cases if c.term is not None]
     bad = common.eval_cases(ctx.workdir, "c02", [c.term for c in modelled], "vcase", "verdict_case_ok")
     dist, kinds = vsuite.distribution(cases)
+    # the theorems' hypothesis `wf s`, decided inside Coq for the schema of every case
+    not_wf = common.eval_cases(ctx.workdir, "c02wf", [c.term for c in modelled], "vcase", "wf_case_ok")
+    dist["hypothesis_wf_holds"] = len(modelled) - len(not_wf)
+    dist["hypothesis_wf_fails"] = len(not_wf)
     ctx.coverage.update(
         evaluations=len(cases),
         distinct_nontrivial=vsuite.distinct_nontrivial(cases),
